@@ -512,19 +512,26 @@ impl<'tcx> TyGenContext<'_, 'tcx> {
                     },
                     _ => unreachable!("AST/HIR variant {:?} unknown.", return_type),
                 };
-                // Add size for checking whether or not we're a pass/fail result. And we make sure to see if our error type is bigger, so if we need to add extra width based on that:
-                let size = std::cmp::max(
+                // The buffer receives a `DiplomatResult<ok, err>`: a union of both arms followed by the `is_ok` flag.
+                // The union is as large and as aligned as its larger / more aligned arm, and its size is a multiple
+                // of its alignment; the flag sits right after it (`resultFlag` reads the last byte of the buffer).
+                let err_layout = match return_type {
+                    // (the Write match up above already used the error layout)
+                    ReturnType::Fallible(_, e) if e.is_some() => Some(
+                        crate::js::layout::type_size_alignment(&e.clone().unwrap(), self.tcx),
+                    ),
+                    _ => None,
+                };
+                let align = std::cmp::max(
+                    layout.align(),
+                    err_layout.map(|l| l.align()).unwrap_or(1),
+                );
+                let union_size = std::cmp::max(
                     layout.size(),
-                    match return_type {
-                        // We already account for an error in the Write match up above:
-                        ReturnType::Fallible(_, e) if e.is_some() => {
-                            crate::js::layout::type_size_alignment(&e.clone().unwrap(), self.tcx)
-                                .size()
-                        }
-                        _ => 0,
-                    },
-                ) + 1;
-                let align = layout.align();
+                    err_layout.map(|l| l.size()).unwrap_or(0),
+                )
+                .next_multiple_of(align);
+                let size = union_size + 1;
 
                 if requires_buf {
                     method_info.alloc_expressions.push(
